@@ -1,5 +1,11 @@
 import os, shutil, subprocess, sys
 MUTS = [
+ ("R1 defect re-introduced: `if not credentials`", "fs/opener/parse.py", "    if credentials is None:\n", "    if not credentials:\n"),
+ ("R2 defect re-introduced: values unquoted twice", "fs/opener/parse.py", "params = {k: v[0] for", "params = {k: unquote(v[0]) for"),
+ ("R3 defect re-introduced: datetime() outside try", "fs/_ftp_parse.py", "    try:\n        dt = datetime(year, month, day, hour, minutes, tzinfo=timezone.utc)\n    except ValueError:\n        # e.g. \"Feb 29 12:00\" when the current year is not a leap year\n        return None\n", "    dt = datetime(year, month, day, hour, minutes, tzinfo=timezone.utc)\n"),
+ ("R4 defect re-introduced: parse_line does not catch ValueError", "fs/_ftp_parse.py", "            except ValueError:\n                # a field the decoder", "            except KeyError:\n                # a field the decoder"),
+ ("R5 defect re-introduced: int(size) unguarded", "fs/ftpfs.py", "                except ValueError:\n                    # isdigit()", "                except KeyError:\n                    # isdigit()"),
+ ("R6 defect re-introduced: timegm outside try", "fs/ftpfs.py", "            epoch_time = calendar.timegm(\n                (tm_year, tm_month, tm_day, tm_hour, tm_min, tm_sec)\n            )\n        except ValueError:\n            return None\n", "        except ValueError:\n            return None\n        epoch_time = calendar.timegm(\n            (tm_year, tm_month, tm_day, tm_hour, tm_min, tm_sec)\n        )\n"),
  ("M1 regex: credentials group greedy", "fs/opener/parse.py", "(?:(.*?)@(.*?))", "(?:(.*)@(.*?))"),
  ("M2 credentials rpartition(':')", "fs/opener/parse.py", 'credentials.partition(":")', 'credentials.rpartition(":")'),
  ("M3 parse_qs drops blank values", "fs/opener/parse.py", "keep_blank_values=True", "keep_blank_values=False"),
@@ -37,7 +43,7 @@ for name, path, old, new in MUTS:
                        cwd="/tmp/c20mut", env=env, stdout=subprocess.PIPE, stderr=subprocess.STDOUT, text=True)
     tests = t.stdout.strip().split("\n")[-1]
     env["VERIF_REPO"] = "/tmp/c20mut"
-    c = subprocess.run(["./check", "C20", "--tier", "quick", "--no-build"], cwd="/tmp/agent-c20/verif", env=env, stdout=subprocess.PIPE, stderr=subprocess.STDOUT, text=True)
+    c = subprocess.run(["./check", "C20", "--tier", "quick", "--no-build"], cwd=os.path.dirname(os.path.dirname(os.path.abspath(__file__))), env=env, stdout=subprocess.PIPE, stderr=subprocess.STDOUT, text=True)
     viol = [l for l in c.stdout.split("\n") if l.startswith("VIOLATION")]
     first = ""
     for i, l in enumerate(c.stdout.split("\n")):
